@@ -91,6 +91,9 @@ func (r *Run) oblige(fr *Frame, kind, sub, name string, reach Term, goal Term, p
 		Name: funcKey(top.fn) + "/" + name, Kind: kind, Sub: sub, Func: funcKey(top.fn), Props: props,
 		Pos: r.posString(pos), Text: text, mark: r.ctx.Mark(), hyps: []Term{reach}, goal: goal, ctx: r.ctx,
 	}
+	if kind == "safe" && fr == r.top && r.topReplay != nil {
+		o.replay = r.topReplay
+	}
 	if (kind == "pre" || kind == "assert") && !reach.IsTrue() {
 		// vacuity guard: the program point itself must be reachable under the assumptions made so far
 		site := name
